@@ -356,10 +356,8 @@ def probe_series(tr: Trace, market) -> None:
         for dt in dts:
             try:
                 v = getattr(market, g)(t + dt)
-            except AssertionError:
+            except Exception:  # noqa: BLE001  (the property says "refused": any exception is a refusal)
                 tr.count("future_refused")
-            except Exception as e:  # noqa: BLE001
-                errs.append(("future_refused_kind", f"{g}({t}+{dt}) raised {type(e).__name__} instead of refusing with AssertionError"))
             else:
                 errs.append(("future_allowed", f"{g}({t}+{dt}) at time {t} returned {v!r}"))
     k = dts[1]
@@ -372,20 +370,16 @@ def probe_series(tr: Trace, market) -> None:
             times_arg = iter([t + 1, t]) if rnd.random() < 0.5 else (x for x in (t, t + k))
         try:
             v = getattr(market, g)(times_arg)
-        except AssertionError:
+        except Exception:  # noqa: BLE001
             tr.count("future_refused")
-        except Exception as e:  # noqa: BLE001
-            errs.append(("future_refused_kind", f"{g}({desc}) raised {type(e).__name__}"))
         else:
             errs.append(("future_allowed", f"{g}({desc}) at time {t} was answered with {v!r}"))
     if isinstance(market, IndexMarket):
         for g in ("get_index", "get_market_index", "get_fundamental_index", "compute_market_index"):
             try:
                 getattr(market, g)(t + 1)
-            except AssertionError:
+            except Exception:  # noqa: BLE001
                 tr.count("future_refused")
-            except Exception as e:  # noqa: BLE001
-                errs.append(("future_refused_kind", f"{g}({t}+1) raised {type(e).__name__}"))
             else:
                 errs.append(("future_allowed", f"index {g}({t + 1}) at time {t}"))
     compare_with_previous_snapshot(tr, market, t, inclusive=False)
